@@ -346,10 +346,6 @@ impl Lowerer<'_> {
 
             let arm_lbl = arm_labels[arm_index];
 
-            // Even if we "forget" to drop the values, we still need to pop
-            // them from the stack.
-            let to_drop = self.stack_slots.pop().unwrap();
-
             if let Some(guard) = &arm.guard {
                 // The guard is only evaluated on the paths that reach it,
                 // so its temporaries get their own stack slot and are
@@ -370,6 +366,12 @@ impl Lowerer<'_> {
                     self.emit_drop(Place::new(var, ty), ty);
                 }
 
+                // Even if we "forget" to drop the values, we still need to pop
+                // them from the stack. That happens after the guard has been
+                // lowered, because a `return` inside the guard has to drop
+                // them.
+                let to_drop = self.stack_slots.pop().unwrap();
+
                 let ident = Identifier::from(format!("guard_{}_drop", i));
                 let intermediate_lbl =
                     self.label_store.wrap_internal(lbl, ident);
@@ -388,6 +390,9 @@ impl Lowerer<'_> {
 
                 self.emit_jump(next_lbl);
             } else {
+                // The arm drops the values, we "forget" them here.
+                self.stack_slots.pop();
+
                 self.emit_jump(arm_lbl);
             }
         }
